@@ -141,7 +141,8 @@ bool Encoder::checkIfSegmented(const Packet& packet)
     bool isSegmented = (!cmpFrames.empty() && bytesLeft < sizeof(MessageHeader) + packet.getPayloadLength());
     if (isSegmented)
     {
-        addNewCMPFrame(packet);
+        if (bytesLeft != maxBytesPerMessage - sizeof(CmpHeader))
+            addNewCMPFrame(packet);
         isSegmented = (!cmpFrames.empty() && bytesLeft < sizeof(MessageHeader) + packet.getPayloadLength());
     }
     return isSegmented;
